@@ -428,6 +428,41 @@ func checkC02(c *Ctx, r *Report) {
 				for k := range reqFieldSourcesCtx(st.Val, hc.ctx, treq) {
 					target[k] = true
 				}
+				// a part of the request may be handed in separately (changeRequestToTarget(req, req.Host, ...)): what every
+				// caller passes for that parameter, read as fields of the request it passes alongside
+				if len(hc.ctx) == 0 {
+					for qi, q := range tf.Params {
+						if q == treq || !derivesFrom(st.Val, func(v ssa.Value) bool { return v == ssa.Value(q) }) {
+							continue
+						}
+						var common map[string]bool
+						for _, site := range li.Callers[tf] {
+							call, okc := asCall(site.in)
+							if !okc || qi >= len(callArgs(call)) {
+								common = map[string]bool{}
+								break
+							}
+							creq, isP := resolveVal(callArgs(call)[0]).(*ssa.Parameter)
+							if !isP {
+								common = map[string]bool{}
+								break
+							}
+							cur := reqFieldSources(callArgs(call)[qi], creq)
+							if common == nil {
+								common = cur
+							} else {
+								for k := range common {
+									if !cur[k] {
+										delete(common, k)
+									}
+								}
+							}
+						}
+						for k := range common {
+							target[k] = true
+						}
+					}
+				}
 			})
 		}
 		keyS := map[string]bool{}
